@@ -298,7 +298,8 @@ def run(ctx):
     total = {'states': 0, 'transitions': 0, 'truncations': 0}
     per = {}
     for graph, policy in configs:
-        root = scratch_root('c05-')
+        # the 'recycled' policy lives in a directory whose name holds glob metacharacters (purging old revisions must still work there)
+        root = scratch_root('c05-[1]x-' if policy == 'recycled' else 'c05-')
         depth = (3 if ctx.quick else 5) if policy == 'content-bound' else (4 if policy == 'recycled' else (3 if policy == 'grammar' else (2 if ctx.quick else 3)))
         _lib.clear()
         _lib['project_grammar'] = policy == 'grammar'   # (a project grammar rebuilds parser and library entries: no fixed digest)
@@ -337,7 +338,7 @@ def run(ctx):
 def replay(ctx, data):
     import rogw.tranp.bin.transpile  # noqa
     graph, policy = data['graph'], data.get('policy', 'content-bound')
-    root = scratch_root('c05r-')
+    root = scratch_root('c05r-[1]x-' if policy == 'recycled' else 'c05r-')
     try:
         ws = init_state(graph, policy)(os.path.join(root, 's'))
         apply = apply_op(graph, policy)
